@@ -28,6 +28,7 @@ def run(tier: str) -> int:
             {"Family": "stack", "MaxLen": 4, "Starts": "zero", "Sample": 1000, "workers": 4},
             {"Family": "stackdeep", "MaxLen": 3, "Starts": "zero", "Sample": 2500, "workers": 4},
             {"Family": "trivfx", "MaxLen": 4, "Starts": "zero", "Sample": 300, "workers": 3},  # implicit rules that push / pop
+            {"Family": "stacke", "MaxLen": 3, "Starts": "zero", "Sample": 0, "workers": 3, "style": "both"},  # empty strings on the stack
         ]
     else:
         fams = [
@@ -35,6 +36,7 @@ def run(tier: str) -> int:
             {"Family": "stack", "MaxLen": 5, "Starts": "zero", "Sample": 0, "workers": 12},
             {"Family": "stackdeep", "MaxLen": 4, "Starts": "zero", "Sample": 0, "workers": 12},
             {"Family": "trivfx", "MaxLen": 4, "Starts": "zero", "Sample": 0, "workers": 8},
+            {"Family": "stacke", "MaxLen": 4, "Starts": "zero", "Sample": 0, "workers": 8, "style": "both"},
         ]
     for f in fams:
         replay.run_family(rep, f, "sem", modes)
